@@ -13,6 +13,8 @@ import (
 	"io/ioutil"
 	"os"
 	"strings"
+
+	"github.com/pegnet/pegnetd/node"
 )
 
 func replayCmd(args []string) {
@@ -71,8 +73,30 @@ func replayCmd(args []string) {
 	rep := NewReport("X", "replay", "quick", 0)
 	curReport = rep
 	bad := 0
+	// the ledger monitors (history replay, rewards, staking, issuance, rates, bank rows …)
+	w := &World{Run: run, S: f.Setup, Rep: rep}
+	defer func() {
+		if w.ro != nil {
+			w.ro.Close()
+		}
+	}()
+	mon := &ledgerMon{rep: rep, s: f.Setup, chain: func() []*BlockSpec { return nil },
+		mintHex: hexAddr(node.GlobalMintAddress), burnHex: hexAddr(node.GlobalBurnAddress), oldBurnHex: hexAddr(node.GlobalOldBurnAddress),
+		devs: map[string]uint64{}}
+	for _, d := range node.DeveloperRewardAddreses {
+		mon.devs[hexAddr(d.DevAddress)] += uint64(d.DevRewardPct)
+	}
+	prevDump, _ := DumpDB(run.D.DBPath)
 	for _, b := range BlocksFromJSON(f.Blocks) {
+		prevWinners := w.LastShortHashes(b.Height)
+		top := w.TopPEG(100)
 		res := run.Step(b)
+		if res.Dump != nil {
+			mon.check(b.Height, b, prevDump, res.Dump, prevWinners, top, res.ImplOK)
+			if res.ImplOK {
+				prevDump = res.Dump
+			}
+		}
 		if res.Diff != "" || !res.ImplOK {
 			bad++
 			say("height %d: impl=%s model=%s", b.Height, res.ImplClass, res.ModelClass)
@@ -105,6 +129,26 @@ func replayCmd(args []string) {
 				break
 			}
 			say("height %d: daemon restarted", b.Height)
+		}
+	}
+	if len(restartAfter) > 0 && bad == 0 {
+		// compare with the same chain synced by a daemon that is never restarted
+		final, _ := DumpDB(run.D.DBPath)
+		cont, err := NewRun(f.Setup)
+		if err == nil {
+			cont.NoModel = true
+			cont.FullEvery = 1000
+			for _, b := range BlocksFromJSON(f.Blocks) {
+				cont.Step(b)
+			}
+			cd, _ := DumpDB(cont.D.DBPath)
+			cont.Close()
+			if diff := FirstDiff(dropBackfill(final), dropBackfill(cd)); diff != "" {
+				say("restarted run vs continuous run: %s", diff)
+				bad++
+			} else {
+				say("restarted run and continuous run end with the same ledger")
+			}
 		}
 	}
 	for _, v := range rep.Violations {
